@@ -48,6 +48,11 @@ def Row.toDecl (b : Backend) (r : Row) : Decl :=
 
 def builtinDecls (b : Backend) : List Decl := b.rows.map (Row.toDecl b)
 
+/-- the property-level view of a specification of the model -/
+def declOf (c : CollSpec) : Decl :=
+  { name := c.name, includes := c.includes, container := c.container, element := c.element,
+    elemPtr := c.element.isSome && c.depthElem != 0, libraries := c.libraries }
+
 /-! ## metadata declarations -/
 
 /-- keys the backend's declaration accepts (generated from the `if k not in [...]` list) -/
@@ -363,38 +368,52 @@ def headerStem (h : Text) : Text :=
 
 /-- ATLAS row: `xAOD::<X>Container` of `xAOD::<X>` (or a single `xAOD::<X>`), fetched as
 `const T*` holding pointers; the container's own header `<lib>/<class>.h` is among the headers;
-every header lives in a package the row links against. -/
+every header lives in a package the row links against and every library is needed by a header. -/
 def AtlasRowOk (r : Row) : Prop :=
   r.backend = t!"atlas" ∧
-  (let (ns, cls) := splitNs r.container
-   ns = t!"xAOD::" ∧
-   (match r.element with
-    | some e => stripSuffix? (t!"Container") cls = some (splitNs e).2 ∧ (splitNs e).1 = ns ∧
-        r.depthType = 1 ∧ r.depthElem = 1 ∧ r.cls = t!"atlas_xaod_event_collection_collection"
-    | none => r.depthType = 1 ∧ r.cls = t!"atlas_xaod_event_collection_container") ∧
-   (∃ h ∈ r.includes, headerStem h = cls ∧ firstSegment h ∈ r.libraries)) ∧
+  (findClass Gen.atlasClasses r.cls).map (·.isCollection) = some r.element.isSome ∧
+  (splitNs r.container).1 = t!"xAOD::" ∧
+  (match r.element with
+   | some e => stripSuffix? (t!"Container") (splitNs r.container).2 = some (splitNs e).2 ∧
+       (splitNs e).1 = (splitNs r.container).1 ∧ r.depthType = 1 ∧ r.depthElem = 1
+   | none => r.depthType = 1) ∧
+  (∃ h ∈ r.includes, headerStem h = (splitNs r.container).2 ∧ firstSegment h ∈ r.libraries) ∧
   (∀ h ∈ r.includes, firstSegment h ∈ r.libraries) ∧
   (∀ l ∈ r.libraries, ∃ h ∈ r.includes, firstSegment h = l) ∧
   r.includes ≠ [] ∧ r.libraries ≠ []
 
 /-- CMS row: `<ns>::<X>Collection` of `<ns>::<X>`, fetched through a handle holding values; the
 element's own header `DataFormats/<pkg>/interface/<X>.h` is among the headers; no link library. -/
-def CmsRowOk (backend : Text) (cls : Text) (r : Row) : Prop :=
-  r.backend = backend ∧ r.cls = cls ∧ r.libraries = [] ∧ r.depthType = 1 ∧ r.depthElem = 0 ∧
+def CmsRowOk (backend : Text) (classes : List ClassInfo) (r : Row) : Prop :=
+  r.backend = backend ∧ (findClass classes r.cls).map (·.isCollection) = some true ∧
+  r.libraries = [] ∧ r.depthType = 1 ∧ r.depthElem = 0 ∧
   (match r.element with
    | some e =>
-     let (ns, c) := splitNs r.container
-     let (ens, ec) := splitNs e
-     ens = ns ∧ stripSuffix? (t!"Collection") c = some ec ∧
-     ∃ h ∈ r.includes, headerStem h = ec
+     (splitNs e).1 = (splitNs r.container).1 ∧
+     stripSuffix? (t!"Collection") (splitNs r.container).2 = some (splitNs e).2 ∧
+     ∃ h ∈ r.includes, headerStem h = (splitNs e).2
    | none => False) ∧
   (∀ h ∈ r.includes, firstSegment h = t!"DataFormats" ∧ isInfix (t!"/interface/") h = true)
 
 instance (r : Row) : Decidable (AtlasRowOk r) := by
   unfold AtlasRowOk; cases r.element <;> exact inferInstance
 
-instance (backend cls : Text) (r : Row) : Decidable (CmsRowOk backend cls r) := by
+instance (backend : Text) (classes : List ClassInfo) (r : Row) : Decidable (CmsRowOk backend classes r) := by
   unfold CmsRowOk; cases r.element <;> exact inferInstance
+
+/-- default method types: nothing declared twice, pointer depth 0 or 1 -/
+def DefaultTypesOk (ts : List MethodType) : Prop :=
+  (ts.map (fun t => (t.cls, t.method))).Nodup ∧ ∀ t ∈ ts, t.depth ≤ 1
+
+instance (ts : List MethodType) : Decidable (DefaultTypesOk ts) := by unfold DefaultTypesOk; exact inferInstance
+
+/-- every class that has default method types can be reached: it is the element type of a built-in
+collection or what another default method returns -/
+def DefaultTypesReachable (rows : List Row) (ts : List MethodType) : Prop :=
+  ∀ t ∈ ts, (∃ r ∈ rows, r.element = some t.cls) ∨ (∃ t' ∈ ts, t'.type = t.cls)
+
+instance (rows : List Row) (ts : List MethodType) : Decidable (DefaultTypesReachable rows ts) := by
+  unfold DefaultTypesReachable; exact inferInstance
 
 def namesOf (rows : List Row) : List Text := rows.map (·.name)
 
